@@ -1867,6 +1867,10 @@ class Interval(Node):
                     self.is_negative = int_value < 0
                 self.smallest = label
 
+    def replace_table(self, current_table: Table | None, new_table: Table | None) -> Interval:
+        # an interval refers to no table: expressions that hold one (field + Interval(...)) pass the call on to it
+        return self
+
     def __str__(self) -> str:
         return self.get_sql(DEFAULT_SQL_CONTEXT)
 
